@@ -576,6 +576,39 @@ func isScannerErrCall(v ssa.Value) bool {
 	_, ok := isStaticCall(v, "(*bufio.Scanner).Err")
 	return ok
 }
+
+// isScannerErrLike: v is the scanner's error as seen through an inlined getter: every result of the
+// literal is the scanner's Err(), or nil where the literal has established that the scanner is gone
+// (inputScanner == nil, i.e. the clean end of input was recorded). v == nil then means "no read error".
+func isScannerErrLike(v ssa.Value) bool {
+	if isScannerErrCall(v) {
+		return true
+	}
+	call, ok := v.(*ssa.Call)
+	if !ok {
+		return false
+	}
+	g := iifeCallee(call)
+	if g == nil || g.Signature.Results().Len() != 1 {
+		return false
+	}
+	isInputScanner := func(x ssa.Value) bool { _, ok := isFieldLoad(x, "parser.Parser", "inputScanner"); return ok }
+	sawCall := false
+	for _, r := range returnsOf(g) {
+		rv := r.Results[0]
+		switch {
+		case isScannerErrCall(rv):
+			sawCall = true
+		case isNilConst(rv):
+			if !factGuards(g, r.Block(), factNil(isInputScanner, true)) {
+				return false
+			}
+		default:
+			return false
+		}
+	}
+	return sawCall
+}
 func isFieldParserErrCall(v ssa.Value) bool {
 	_, ok := isModCall(v, "(*parser.FieldParser).Err")
 	return ok
@@ -622,13 +655,13 @@ func r11_5(c *Ctx) {
 						continue
 					}
 					falseEdge := cfgEdge{ifi.Block(), 1 - s}
-					if !edgeDominates(falseEdge.From, falseEdge.Idx, ret.Block()) {
+					if !edgeDominates(falseEdge.From, falseEdge.Idx, ret.Block()) && !factGuards(fn, ret.Block(), factEdges(falseEdge)) {
 						continue
 					}
 					// every path from that edge to ret passes the marker store or the Err()!=nil edge
 					blocked := map[cfgEdge]bool{}
 					for _, j := range ifsIn(fn) {
-						if sn, ok := nilEdge(j, isScannerErrCall); ok {
+						if sn, ok := nilEdge(j, isScannerErrLike); ok {
 							blocked[cfgEdge{j.Block(), 1 - sn}] = true
 						}
 					}
@@ -716,7 +749,7 @@ func r11_6(c *Ctx) {
 			return sawCall
 		}
 		for _, j := range ifsIn(fn) {
-			if sn, ok := nilEdge(j, func(v ssa.Value) bool { return isScannerErrCall(v) || readErrLocal(v) }); ok {
+			if sn, ok := nilEdge(j, func(v ssa.Value) bool { return isScannerErrLike(v) || readErrLocal(v) }); ok {
 				blocked[cfgEdge{j.Block(), sn}] = true
 			}
 			if sn, ok := nilEdge(j, func(v ssa.Value) bool { _, ok := isFieldLoad(v, "parser.Parser", "inputScanner"); return ok }); ok {
@@ -752,7 +785,7 @@ func r11_7(c *Ctx) {
 		n++
 		name := fnLabel(next) + ":eof-marker-store"
 		g1 := guardedByBool(next, in.Block(), isScanCall, false)
-		g2 := guardedByNil(next, in.Block(), isScannerErrCall, true)
+		g2 := guardedByNil(next, in.Block(), isScannerErrLike, true)
 		c.check(g1 && g2, name, P.ipos(in), "clean-EOF marker set only when Scan()==false and the scanner has no error",
 			"clean-EOF marker is set without Scan()==false && Err()==nil: a read error or a live stream would be reported as io.EOF")
 	})
